@@ -64,6 +64,60 @@ func (s sys) Run(path []seqx.Op) (res seqx.Result) {
 	return
 }
 
+// bigSys: no capacity bound, no de-duplication; the full observation after every sequence. Used from
+// large seed states (capacities the closure does not reach: 64, 128, 256 and odd ones after Grow).
+type bigSys struct{}
+
+func (bigSys) Run(path []seqx.Op) (res seqx.Result) {
+	d, _, v := replay(path)
+	res.Checks = 1
+	if v != nil {
+		res.Viol = v
+		return
+	}
+	if v := d.Observe(); v != nil {
+		if len(path) > 0 {
+			v.Sig = v.Sig + "/after-" + dq.OpNames[path[len(path)-1].K]
+		}
+		res.Viol = v
+		return
+	}
+	res.Key = "x"
+	res.Next = d.Enabled()
+	return
+}
+
+func bigSeeds() [][]seqx.Op {
+	var seeds [][]seqx.Op
+	rep := func(k uint8, n int) []seqx.Op {
+		var o []seqx.Op
+		for i := 0; i < n; i++ {
+			o = append(o, seqx.Op{K: k})
+		}
+		return o
+	}
+	cat := func(parts ...[]seqx.Op) []seqx.Op {
+		var o []seqx.Op
+		for _, p := range parts {
+			o = append(o, p...)
+		}
+		return o
+	}
+	for _, n := range []int{31, 32, 33, 63, 64, 65, 127, 128, 129, 255, 256} {
+		seeds = append(seeds,
+			rep(dq.OpPushBack, n),
+			rep(dq.OpPushFront, n),
+			// wrapped: fill, drop some from the front, refill at the back
+			cat(rep(dq.OpPushBack, n), rep(dq.OpPopFront, 7), rep(dq.OpPushBack, 7)),
+			// wrapped the other way and one short of full
+			cat(rep(dq.OpPushFront, n), rep(dq.OpPopBack, 9), rep(dq.OpPushFront, 8)),
+			// grown to an odd capacity first
+			cat(rep(dq.OpPushBack, 3), []seqx.Op{{K: dq.OpGrow, A: 4}}, rep(dq.OpPushBack, n)),
+		)
+	}
+	return seeds
+}
+
 func readablePath(path []seqx.Op) []string {
 	_, r, _ := replay(path)
 	return r
@@ -119,6 +173,21 @@ func main() {
 		run.Violate(vx.Violation{Signature: v.Viol.Sig, Detail: fmt.Sprintf("%s; history %v", v.Viol.Detail, readablePath(v.Path)),
 			Replay: map[string]any{"ops": v.Path, "readable": readablePath(v.Path)}})
 	}
+	// large capacities: every sequence of two operations from large seed states
+	stB := seqx.Enumerate(bigSys{}, bigSeeds(), 2, seqx.Config{Deadline: run.Deadline})
+	run.AddCounts(stB.States, stB.Transitions, stB.Transitions)
+	if stB.Capped != "" {
+		run.Capped("large seeds: " + stB.Capped)
+	}
+	if len(stB.Viols) > 0 {
+		v := stB.Viols[0]
+		rd := readablePath(v.Path)
+		if len(rd) > 12 {
+			rd = append([]string{fmt.Sprintf("(%d seed operations)", len(rd)-6)}, rd[len(rd)-6:]...)
+		}
+		run.Violate(vx.Violation{Signature: v.Viol.Sig, Detail: fmt.Sprintf("%s; history %v", v.Viol.Detail, rd), Replay: map[string]any{"ops": v.Path}})
+	}
+	run.Set("large_seed_states", map[string]any{"seeds": len(bigSeeds()), "fill_sizes": []int{31, 32, 33, 63, 64, 65, 127, 128, 129, 255, 256}, "depth": 2, "sequences": stB.Transitions})
 	run.Set("capacity_bound", maxCap)
 	run.Set("bfs_depth", st.MaxDepth)
 	run.Set("states_per_depth", st.PerDepth)
